@@ -4623,7 +4623,9 @@ class PyCdlib:
         # the same thing, we can't actually add a hard link.
 
         old_rec = dr.DirectoryRecord()  # type: Union[dr.DirectoryRecord, udfmod.UDFFileEntry]
-        fmode = 0
+        # The same default that add_fp uses; only an ISO9660 source with Rock
+        # Ridge knows a better one.
+        fmode = 0o0100444
         if iso_old_path is not None:
             # A link from a file on the ISO9660 filesystem...
             old_rec = self._find_iso_record(iso_old_path)
